@@ -65,6 +65,11 @@ def _job(job):
             return out
     spans = bool(job.get('spans'))
     fuel = job.get('fuel', 64)
+    if job.get('tagcheck'):
+        # hypothesis of C02_tree_well_shaped_and_yield: the rows of every real table are tagged (prec, assoc) with
+        # assoc = 0 on prefix rows and != 0 on infix rows (decided by the Lean function the theorem is stated with)
+        reply = drv.ask('(tagcheck ' + ' '.join(bodies) + ')')
+        out['tagcheck'] = reply
     for entry in job.get('entries', ['start']):
         cases = job['cases']
         req = rr.core_request(w, bodies, ign, w.index[entry], cases, fuel)
